@@ -23,7 +23,7 @@ def inproc_ssh1_status(cmask, amask):
     from ssh_audit.outputbuffer import OutputBuffer
     from ssh_audit.auditconf import AuditConf
     from ssh_audit import ssh_audit as SA
-    pkm = SSH1_PublicKeyMessage.parse(P.pkm_payload(cmask, amask))
+    pkm = SSH1_PublicKeyMessage.parse(P.pkm_payload(cmask, amask)[1:])   # without the message type byte, as audit() passes it
     out = OutputBuffer(); out.batch = True; out.use_colors = False
     ac = AuditConf('127.0.0.1', 22); ac.ssh1 = True; ac.ssh2 = False; ac.batch = True; ac.colors = False
     ret = SA.output(out, ac, Banner.parse('SSH-1.99-OpenSSH_3.0'), [], pkm=pkm)
@@ -35,6 +35,8 @@ def run(ctx):
     q = ctx.quick
     rng = ctx.rng
     recs = reportfam.standard(ctx, 250 if q else 4000, parts=('status', 'items'))
+    # end to end (real command line over TCP, server audits and -c client audits): the process exit status against the printed report
+    recs += reportfam.cli_records(ctx, [r['peer'] for r in rng.sample(recs, min(len(recs), 16 if q else 300))], parts=('status', 'items'))
     nontriv = set()
     # oracle 1 (in-process): return value of output() == worst tag in the printed report, under every option set
     for r in recs:
@@ -69,7 +71,7 @@ def run(ctx):
     for st in stages * (1 if q else 6):
         cases.append((st, g.peer(), rng.choice([[], ['-j'], ['-b'], ['-l', 'fail']])))
     # the automatic SSH-1 retry after 'Protocol major versions differ.': the status of the whole run is the status of the retry
-    for st in ('fallback-ssh1-report', 'fallback-ssh1-broken', 'fallback-ssh1-mismatch-again') * (1 if q else 4):
+    for st in ('fallback-ssh1-report', 'fallback-ssh1-broken', 'fallback-ssh1-mismatch-again', 'ssh1-direct-report', 'ssh1-direct-report') * (1 if q else 4):
         p = g.peer(); p['cmask'] = rng.choice([0x4c, 0x08, 0x48, 0x7e]); p['amask'] = rng.choice([0x0c, 0x04, 0x3e])
         cases.append((st, p, rng.choice([[], ['-b'], ['-j']])))
     pol_cases = []
@@ -97,6 +99,9 @@ def run(ctx):
         elif kind == 'bad-blocksize': srv = P.Server(P.RawServer([b'SSH-2.0-OpenSSH_8.0\r\n', b'\x00\x00\x00\x0d\x04' + bytes(20)], then='close'))
         elif kind == 'garbage-after-banner': srv = P.Server(P.RawServer([b'SSH-2.0-OpenSSH_8.0\r\n', bytes(range(40, 90))], then='close'))
         elif kind == 'kexinit-short-list': srv = P.Server(P.RawServer([b'SSH-2.0-OpenSSH_8.0\r\n', P.frame2(bytes([20]) + bytes(16) + b'\x00\x00\x00\x05abc')], then='close'))
+        elif kind == 'ssh1-direct-report':
+            srv = P.Server(P.Ssh1Server({'cmask': p['cmask'], 'amask': p['amask']}))
+            opts = ['-1'] + opts
         elif kind.startswith('fallback-ssh1-'):
             first = P.RawServer([b'SSH-1.99-OpenSSH_3.0\r\n', b'Protocol major versions differ.\n'], then='close-now')
             second = {'report': P.Ssh1Server({'cmask': p['cmask'], 'amask': p['amask']}), 'broken': P.RawServer([b'SSH-1.99-OpenSSH_3.0\r\n', b'\x00\x00'], then='close'), 'mismatch-again': first}[kind[14:]]
@@ -156,7 +161,7 @@ def run(ctx):
             if res['rc'] != want:
                 ctx.violation('cli-status-vs-report', 'process exit status %r but the worst finding of the report is %r (options %r)' % (res['rc'], want, opts),
                               {'op': 'cli', 'kind': kind, 'opts': opts, 'peer': reportfam.jsonable_peer(p)})
-        elif kind == 'fallback-ssh1-report':
+        elif kind in ('fallback-ssh1-report', 'ssh1-direct-report'):
             # a complete SSH-1 report: the exit status is its worst tag
             if '-j' in opts:
                 has = '"key"' in out and '"fingerprints"' in out
